@@ -1760,6 +1760,10 @@ class ForAll(QuantifiedConditional):
                 solution_set = []
                 break
 
+        if solution_set is None:
+            # the universal variable has no values: the condition holds vacuously
+            solution_set = [{}]
+
         # Yield the remaining bindings (non-universal) merged with the incoming sources
         yield from [
             OperationResult({**sources, **sol}, False, self) for sol in solution_set
